@@ -18,6 +18,7 @@ only grows, so a value once received for a frame is never replaced.
 import GgrsModel.Model.P2P
 import GgrsModel.Proofs.Monad
 import GgrsModel.Proofs.Predict
+import GgrsModel.Proofs.Monotone
 
 namespace Ggrs.InputQueue
 
@@ -241,5 +242,17 @@ theorem C03_confirmed_final (pr : Predictor) (st st' : QState) (hr : QStar pr st
 
 /-! Non-vacuity: a concrete history with a prediction, a matching and a mismatching arrival. -/
 example : (InputQueue.new.input .repeatLast 0).map (fun r => (r.2.1, r.2.2)) = .ok (0, .predicted) := by decide
+
+end Ggrs
+
+namespace Ggrs
+
+/-- **C03, `confirmed_frame()` never decreases (rollback mode, no disconnected players).** Along
+any run of remote-input arrivals, `advance_frame` calls and `set_input_delay` calls, a later value
+of `confirmed_frame()` is at least an earlier one: every player's `last_frame` is the newest frame
+its queue holds (`status_top`) and the queues' streams only grow. -/
+theorem C03_confirmed_monotone (x y : P2P × TLState) (h : HInv x) (hr : DStar x y) (cx cy : Frame)
+    (hcx : x.1.confirmedFrame = .ok cx) (hcy : y.1.confirmedFrame = .ok cy) : cx ≤ cy :=
+  confirmedFrame_mono x y h hr cx cy hcx hcy
 
 end Ggrs
